@@ -38,7 +38,7 @@ ASSUMPTIONS = [
     "hand-edited file",
 ]
 REQUIRED = {"mode:include": 40, "mode:exclude": 40, "kind:pair": 20, "kind:eam": 15, "kind:fs": 15, "kind:adp": 5,
-            "removes_and_keeps": 50, "views>=2": 40, "unknown_label": 15, "empty_include": 5,
+            "removes_and_keeps": 50, "views>=2": 40, "views_tabulated": 25, "unknown_label": 15, "empty_include": 5,
             "only_unknown_labels:include:make_config_parser": 2, "only_unknown_labels:exclude:make_config_parser": 2}
 
 
@@ -216,6 +216,21 @@ def check_case(case):
         got = anymodel.outcome_from_parser(mk, target)
         if not anymodel.same_outcome(got, want):
             v.append(("output_differs", "filtered: %r\nhand-edited: %r\n%s" % (got[:1] + (got[1][:300],), want[:1] + (want[1][:300],), ctx)))
+        if views is not None and len(views) > 1 and not v:
+            # every view (and the unfiltered parser itself) TABULATED in the generated order, all from the one parsed
+            # file: each output is that of its own hand-edited file, whatever was tabulated before
+            cls.append("views_tabulated")
+            seq = [("view %d %r" % (i, filters[i]), (lambda i=i: views[i]), anymodel.text_of(hand_edit(secs, filters[i])[0])) for i in case["order"]]
+            seq.insert(len(seq) // 2, ("the unfiltered parser", (lambda: cp), text))
+            for label, getter, etxt in seq + seq[:1]:
+                w2 = anymodel.outcome(etxt, target)
+                if w2[0] == "exception":
+                    continue
+                g2 = anymodel.outcome_from_parser(getter, target)
+                if not anymodel.same_outcome(g2, w2):
+                    v.append(("view_interference:output", "%s tabulated after %r: %r\nits hand-edited file gives %r\n%s" % (
+                        label, [x[0] for x in seq], g2[:1] + (g2[1][:300],), w2[:1] + (w2[1][:300],), ctx)))
+                    break
     except Exception as e:
         v.append(("exception:%s@%s" % (type(e).__name__, libroute.innermost_atsim_frame(e)), "%r\n%s" % (e, ctx)))
     return {"v": v, "cls": cls, "nt": bool(removed and kept)}
